@@ -127,7 +127,7 @@ func preBlock(fw *formatWriter, source []byte, cursor *commonmark.Cursor) (child
 		fw.s(curr.Child(1).Inline().Text(source))
 		if curr.ChildCount() > 2 {
 			fw.s(` "`)
-			fw.s(curr.Child(2).Inline().Text(source))
+			fw.s(escapeTitle(curr.Child(2).Inline().Text(source)))
 			fw.s(`"`)
 		}
 		fw.s("\n")
@@ -331,7 +331,7 @@ func postInline(fw *formatWriter, source []byte, cursor *commonmark.Cursor) {
 			}
 			if title != nil {
 				fw.s(`"`)
-				fw.s(title.Text(source))
+				fw.s(escapeTitle(title.Text(source)))
 				fw.s(`"`)
 			}
 			fw.s(")")
@@ -353,6 +353,16 @@ func isShortcutLinkOrImage(inline *commonmark.Inline) bool {
 		}
 	}
 	return true
+}
+
+// titleEscaper escapes the characters that would end a double-quoted link title early,
+// start a character reference
+// or be taken for an escape themselves.
+var titleEscaper = strings.NewReplacer(`\`, `\\`, `"`, `\"`, `&`, `&amp;`)
+
+// escapeTitle returns title in a form that can be written between double quotes.
+func escapeTitle(title string) string {
+	return titleEscaper.Replace(title)
 }
 
 const codeBlockIndentLimit = 4
